@@ -296,7 +296,11 @@ func replayProto(R *Result, in protoInput, beh []WStep, conc Conc, kc KeyConc, b
 	first := in.Insts[0]
 	for _, i := range in.Insts[1:] {
 		if fmt.Sprint(finals[i].raw) != fmt.Sprint(finals[first].raw) || fmt.Sprint(finals[i].app) != fmt.Sprint(finals[first].app) {
-			bad("C01", "not-converged", len(beh)-1, "after the drain instance %d holds %v / app %v, instance %d holds %v / app %v",
+			cls := "not-converged"
+			if fmt.Sprint(finals[i].raw) == fmt.Sprint(finals[first].raw) && onlyEmptyValuesDiffer(finals[i].app, finals[first].app) {
+				cls = "not-converged-empty-app-value" // finding F3: shadowToMain drops application entries with an empty value
+			}
+			bad("C01", cls, len(beh)-1, "after the drain instance %d holds %v / app %v, instance %d holds %v / app %v",
 				first, finals[first].raw, finals[first].app, i, finals[i].raw, finals[i].app)
 		}
 	}
@@ -350,4 +354,18 @@ func usesEmptyAppValue(beh []WStep) bool {
 		}
 	}
 	return false
+}
+
+func onlyEmptyValuesDiffer(a, b map[string]string) bool {
+	for k, v := range a {
+		if w, ok := b[k]; (!ok || w != v) && v != "" {
+			return false
+		}
+	}
+	for k, v := range b {
+		if w, ok := a[k]; (!ok || w != v) && v != "" {
+			return false
+		}
+	}
+	return true
 }
